@@ -598,8 +598,10 @@ impl Connection {
                 }
 
                 // Congestion control and pacing checks
-                // Tail loss probes must not be blocked by congestion, or a deadlock could arise
-                if ack_eliciting && self.spaces[space_id].loss_probes == 0 {
+                // Tail loss probes must not be blocked by congestion, or a deadlock could arise.
+                // Neither must CONNECTION_CLOSE: it is sent at most once per space, and the peer
+                // would otherwise only learn of the close by timing out.
+                if ack_eliciting && !close && self.spaces[space_id].loss_probes == 0 {
                     // Assume the current packet will get padded to fill the segment
                     let untracked_bytes = if let Some(builder) = &builder_storage {
                         buf_capacity - builder.partial_encode.start
@@ -747,7 +749,7 @@ impl Connection {
                 // datagram was started by a packet that isn't ack-eliciting (e.g. an Initial or
                 // Handshake ACK), ack-eliciting data coalesced behind it must still respect the
                 // congestion window.
-                if ack_eliciting && self.spaces[space_id].loss_probes == 0 {
+                if ack_eliciting && !close && self.spaces[space_id].loss_probes == 0 {
                     let untracked_bytes = match &builder_storage {
                         Some(builder) => buf_capacity - builder.partial_encode.start,
                         None => buf_capacity - buf.len(),
